@@ -346,6 +346,25 @@ def gen_steps(rnd, cfg):
     return steps
 
 
+def grow_steps(cfg):
+    """the cluster grows while the node is a candidate: the file is rewritten to name two more nodes, the watcher picks
+    it up (scan interval 1 s), and from then on fresh election rounds get exactly as many votes of old members as
+    reached the OLD majority - one short of the new one.  Then a round with enough votes."""
+    peers, later = cfg["peers"], cfg["later"]
+    old_q = (len(peers) + 1) // 2 + 1
+    steps = [{"do": "rewrite", "peers": peers + later}, {"do": "sleep", "ms": 1500}, {"do": "await", "what": "voteReq", "ms": 1200}]
+    for _ in range(3):
+        steps.append({"do": "await", "what": "voteReq", "ms": 1200})          # a fresh request for votes
+        for v in peers[:old_q - 1]:
+            steps.append({"do": "send", "from": v, "m": {"t": "voteResp", "id": v}})
+        steps.append({"do": "sleep", "ms": 250})
+    steps.append({"do": "await", "what": "voteReq", "ms": 1200})
+    for v in (peers + later)[:old_q]:
+        steps.append({"do": "send", "from": v, "m": {"t": "voteResp", "id": v}})
+    steps.append({"do": "sleep", "ms": 300})
+    return steps
+
+
 def write_trace(path, cfg, runs):
     with open(path, "w") as f:
         f.write(json.dumps(cfg) + "\n")
